@@ -1,51 +1,505 @@
-import MindsVerif.Model.Py
 /-!
-# M9 (literal part) — the SQLAlchemy literal renderer and target-engine lexical models
+M9 / M6 (fragment) — what the text produced by `SqlalchemyRender` denotes, as an AST → AST normal
+form (`saNorm…`), and a small SQL semantics to state "means the same".  Core Lean only.
 
-* `renderLiteral` transcribes `LiteralCompiler.render_literal_value` for `str` values in
-  `render/sqlalchemy_render.py` (both the DML and the DDL compiler):
-  `"'{}'".format(str(value).replace("'", "''"))` — the same text for every SQLAlchemy dialect.
-* `stdLex` — string literal of standard SQL (PostgreSQL with `standard_conforming_strings`, SQLite,
-  MSSQL, Oracle): opening `'`, then `''` ↦ `'`, any other character itself, closing `'` (a quote not
-  followed by a quote).  No backslash escapes.  Validated against `sqlite3` by the check.
-* `mysqlLex` — MySQL string literal with backslash escapes on (default `sql_mode`): additionally `\c`
-  is an escape (`\'`→`'`, `\"`→`"`, `\\`→`\`, `\n`→newline, `\t`, `\r`, `\0`, `\b`, `\Z`; `\%`, `\_` keep
-  the backslash; every other `\c` ↦ `c`).  From the MySQL manual (trusted; no engine offline).
+Transcribed from `mindsdb_sql/render/sqlalchemy_render.py`:
+* `to_expression` / `UnaryOperation` : `NOT x` is `x.__invert__()`; SQLAlchemy flips a comparison
+  that has a `negate` operator instead of printing `NOT (...)`.  The flip table is generated
+  (`Gen/SaPrec.lean`, last component) and pinned in `Props/C06` (generated through the renderer; since 834b7e0 `is ↔ is not`).
+* `prepare_select` : join method chosen from the `join_type` *string* (since 1eac524):
+  `LEFT [OUTER] JOIN` → `outerjoin`, `FULL [OUTER] JOIN` → `full=True`, `JOIN` / `INNER JOIN` /
+  `CROSS JOIN` → `join`, anything else → `NotImplementedError` (then `get_string` falls back to the
+  AST printer, i.e. the original statement);
+  missing condition → `text('1=1')`; implicit joins are added to the FROM list.
+* ORDER BY: `direction.upper()` ∈ {DESC, ASC}, `nulls.upper()` ∈ {NULLS FIRST, NULLS LAST}; window
+  functions test only `direction == 'DESC'` and drop `nulls`.
+* constants and functions are labelled; explicit aliases are kept (d11bd89).
 -/
 namespace MindsVerif.Render
-open MindsVerif.Py
 
-def renderLiteral (v : List Char) : List Char := '\'' :: replace ['\''] ['\'', '\''] v ++ ['\'']
+/-! ### values, three-valued logic -/
 
-/-- behind the opening quote: `(value, rest)`; `none` = unterminated -/
-def stdBody : List Char → Option (List Char × List Char)
-  | [] => none
-  | [c] => if c = '\'' then some ([], []) else none
-  | c :: d :: t =>
-    if c = '\'' then
-      (if d = '\'' then (stdBody t).map fun (v, r) => ('\'' :: v, r) else some ([], d :: t))
-    else (stdBody (d :: t)).map fun (v, r) => (c :: v, r)
+/-- NULL or an integer; truth values are integers as in sqlite -/
+abbrev Val := Option Int
 
-def stdLex : List Char → Option (List Char × List Char)
-  | '\'' :: t => stdBody t
-  | _ => none
+def ofBool (b : Bool) : Val := some (if b then 1 else 0)
 
-def mysqlEsc (c : Char) : List Char :=
-  if c = 'n' then ['\n'] else if c = 't' then ['\t'] else if c = 'r' then ['\r']
-  else if c = '0' then [Char.ofNat 0] else if c = 'b' then [Char.ofNat 8] else if c = 'Z' then [Char.ofNat 26]
-  else if c = '%' ∨ c = '_' then ['\\', c] else [c]
+def ofTruth : Option Bool → Val
+  | none => none
+  | some b => ofBool b
 
-def mysqlBody : List Char → Option (List Char × List Char)
-  | [] => none
-  | [c] => if c = '\'' then some ([], []) else none
-  | c :: d :: t =>
-    if c = '\\' then (mysqlBody t).map fun (v, r) => (mysqlEsc d ++ v, r)
-    else if c = '\'' then
-      (if d = '\'' then (mysqlBody t).map fun (v, r) => ('\'' :: v, r) else some ([], d :: t))
-    else (mysqlBody (d :: t)).map fun (v, r) => (c :: v, r)
+def truth : Val → Option Bool
+  | none => none
+  | some n => some (n != 0)
 
-def mysqlLex : List Char → Option (List Char × List Char)
-  | '\'' :: t => mysqlBody t
-  | _ => none
+def not3 (v : Val) : Val :=
+  match truth v with
+  | none => none
+  | some b => ofBool (!b)
+
+/-- Kleene conjunction / disjunction on truth values -/
+def and3T : Option Bool → Option Bool → Option Bool
+  | some false, _ => some false
+  | _, some false => some false
+  | some true, some true => some true
+  | _, _ => none
+
+def or3T : Option Bool → Option Bool → Option Bool
+  | some true, _ => some true
+  | _, some true => some true
+  | some false, some false => some false
+  | _, _ => none
+
+def and3 (a b : Val) : Val := ofTruth (and3T (truth a) (truth b))
+
+def or3 (a b : Val) : Val := ofTruth (or3T (truth a) (truth b))
+
+def lift2 (f : Int → Int → Bool) : Val → Val → Val
+  | some x, some y => ofBool (f x y)
+  | _, _ => none
+
+def liftI (f : Int → Int → Int) : Val → Val → Val
+  | some x, some y => some (f x y)
+  | _, _ => none
+
+/-! ### expressions -/
+
+inductive Cmp where
+  | eq | ne | lt | le | gt | ge | is | isNot | like | notLike
+  deriving DecidableEq, Repr
+
+inductive Ar where
+  | add | sub | mul | mod
+  deriving DecidableEq, Repr
+
+inductive Expr where
+  | null
+  | int (n : Int)
+  | col (i : Nat)
+  | cmp (o : Cmp) (l r : Expr)
+  | ar (o : Ar) (l r : Expr)
+  | and (l r : Expr)
+  | or (l r : Expr)
+  | not (e : Expr)
+  | neg (e : Expr)
+  /-- `x [NOT] BETWEEN lo AND hi` -/
+  | btw (negated : Bool) (x lo hi : Expr)
+  deriving DecidableEq, Repr
+
+/-- what is fixed outside the statement: the engine's LIKE and its default NULL position -/
+structure Env where
+  like : Val → Val → Option Bool
+  /-- NULLs sort as the smallest value when no NULLS FIRST/LAST is given (sqlite, MySQL) -/
+  nullsLow : Bool
+
+def evalCmp (env : Env) : Cmp → Val → Val → Val
+  | .eq => lift2 (fun x y => x == y)
+  | .ne => lift2 (fun x y => x != y)
+  | .lt => lift2 (fun x y => decide (x < y))
+  | .le => lift2 (fun x y => decide (x ≤ y))
+  | .gt => lift2 (fun x y => decide (y < x))
+  | .ge => lift2 (fun x y => decide (y ≤ x))
+  | .is => fun a b => ofBool (a == b)
+  | .isNot => fun a b => ofBool (a != b)
+  | .like => fun a b => ofTruth (env.like a b)
+  | .notLike => fun a b => not3 (ofTruth (env.like a b))
+
+def evalAr : Ar → Val → Val → Val
+  | .add => liftI (· + ·)
+  | .sub => liftI (· - ·)
+  | .mul => liftI (· * ·)
+  | .mod => fun a b => match a, b with
+    | some x, some y => if y = 0 then none else some (Int.tmod x y)
+    | _, _ => none
+
+def eval (env : Env) (ρ : Nat → Val) : Expr → Val
+  | .null => none
+  | .int n => some n
+  | .col i => ρ i
+  | .cmp o l r => evalCmp env o (eval env ρ l) (eval env ρ r)
+  | .ar o l r => evalAr o (eval env ρ l) (eval env ρ r)
+  | .and l r => and3 (eval env ρ l) (eval env ρ r)
+  | .or l r => or3 (eval env ρ l) (eval env ρ r)
+  | .not e => not3 (eval env ρ e)
+  | .neg e => (eval env ρ e).map (fun n => -n)
+  | .btw n x lo hi =>
+    let v := and3 (evalCmp env .ge (eval env ρ x) (eval env ρ lo))
+                  (evalCmp env .le (eval env ρ x) (eval env ρ hi))
+    if n then not3 v else v
+
+/-- the operator `BinaryExpression._negate` switches to (generated table, pinned in Props) -/
+def Cmp.saNeg : Cmp → Cmp
+  | .eq => .ne | .ne => .eq
+  | .lt => .ge | .ge => .lt
+  | .gt => .le | .le => .gt
+  | .like => .notLike | .notLike => .like
+  | .is => .isNot | .isNot => .is
+
+/-- `ColumnElement.__invert__` applied to the element built for an (already normalised) tree -/
+def saInvert : Expr → Expr
+  | .cmp o l r => .cmp o.saNeg l r
+  | .btw n x lo hi => .btw (!n) x lo hi
+  | e => .not e
+
+/-- the expression the rendered text denotes -/
+def saNormE : Expr → Expr
+  | .null => .null
+  | .int n => .int n
+  | .col i => .col i
+  | .cmp o l r => .cmp o (saNormE l) (saNormE r)
+  | .ar o l r => .ar o (saNormE l) (saNormE r)
+  | .and l r => .and (saNormE l) (saNormE r)
+  | .or l r => .or (saNormE l) (saNormE r)
+  | .not e => saInvert (saNormE e)
+  | .neg e => .neg (saNormE e)
+  | .btw n x lo hi => .btw n (saNormE x) (saNormE lo) (saNormE hi)
+
+/-- SQLAlchemy's static type of the element (only its being Boolean matters): columns and NULL are
+`NullType`, integer literals `Integer`; an arithmetic result takes the left operand's type, except
+that `NullType` defers to the right operand for the commutative `+` and `*` -/
+inductive Ty where
+  | bool | int | null
+  deriving DecidableEq, Repr
+
+def tyOf : Expr → Ty
+  | .null => .null
+  | .int _ => .int
+  | .col _ => .null
+  | .cmp _ _ _ => .bool
+  | .and _ _ => .bool
+  | .or _ _ => .bool
+  | .not _ => .bool
+  | .btw _ _ _ _ => .bool
+  | .neg e => tyOf e
+  | .ar o l r =>
+    match tyOf l with
+    | .bool => .bool
+    | .int => .int
+    | .null => if o = .add ∨ o = .mul then tyOf r else .null
+
+/-- arithmetic whose SQLAlchemy type is Boolean: `NOT` of it is printed by the sqlite compiler as
+`(x) = 0` (`AsBoolean … is_false`), which this model does not reproduce (same value; the execution
+probe covers it) -/
+def typedArith : Expr → Bool
+  | .ar o l r => tyOf (.ar o l r) == .bool
+  | .neg e => tyOf e == .bool
+  | _ => false
+
+/-- the modelled fragment: no `NOT` stands directly over Boolean-typed arithmetic (after
+normalisation of the operand) -/
+def okE : Expr → Bool
+  | .null => true
+  | .int _ => true
+  | .col _ => true
+  | .cmp _ l r => okE l && okE r
+  | .ar _ l r => okE l && okE r
+  | .and l r => okE l && okE r
+  | .or l r => okE l && okE r
+  | .not e => okE e && !typedArith (saNormE e)
+  | .neg e => okE e
+  | .btw _ x lo hi => okE x && okE lo && okE hi
+
+/-! ### relations and joins -/
+
+abbrev Row := List Val
+abbrev Table := List Row
+
+def rowEnv (r : Row) : Nat → Val := fun i => (r[i]?).join
+
+def holds (env : Env) (c : Expr) (r : Row) : Bool := truth (eval env (rowEnv r) c) == some true
+
+def nulls (n : Nat) : Row := List.replicate n none
+
+def matchesOf (env : Env) (c : Expr) (l : Row) (R : Table) : Table :=
+  R.filter fun r => holds env c (l ++ r)
+
+def innerJoin (env : Env) (c : Expr) (L R : Table) : Table :=
+  L.flatMap fun l => (matchesOf env c l R).map (l ++ ·)
+
+def leftJoin (env : Env) (c : Expr) (wR : Nat) (L R : Table) : Table :=
+  L.flatMap fun l =>
+    if (matchesOf env c l R).isEmpty then [l ++ nulls wR] else (matchesOf env c l R).map (l ++ ·)
+
+/-- right rows without a partner, padded on the left -/
+def unmatchedR (env : Env) (c : Expr) (wL : Nat) (L R : Table) : Table :=
+  (R.filter fun r => !(L.any fun l => holds env c (l ++ r))).map (nulls wL ++ ·)
+
+inductive JoinKind where
+  | inner | left | right | full
+  deriving DecidableEq, Repr
+
+def evalJoin (env : Env) (k : JoinKind) (c : Expr) (wL wR : Nat) (L R : Table) : Table :=
+  match k with
+  | .inner => innerJoin env c L R
+  | .left => leftJoin env c wR L R
+  | .right => innerJoin env c L R ++ unmatchedR env c wL L R
+  | .full => leftJoin env c wR L R ++ unmatchedR env c wL L R
+
+def cross (L R : Table) : Table := L.flatMap fun l => R.map (l ++ ·)
+
+/-- what a `join_type` string means in SQL (`none`: not an SQL join operator) -/
+def sqlKind (jt : String) : Option JoinKind :=
+  if jt = "JOIN" ∨ jt = "INNER JOIN" ∨ jt = "CROSS JOIN" then some .inner
+  else if jt = "LEFT JOIN" ∨ jt = "LEFT OUTER JOIN" then some .left
+  else if jt = "RIGHT JOIN" ∨ jt = "RIGHT OUTER JOIN" then some .right
+  else if jt = "FULL JOIN" ∨ jt = "FULL OUTER JOIN" then some .full
+  else none
+
+/-- `prepare_select`: `outerjoin` for `LEFT [OUTER] JOIN`, `full=True` for `FULL [OUTER] JOIN`, a plain
+`join` for `JOIN` / `INNER JOIN` / `CROSS JOIN`; `none` = `NotImplementedError` -/
+def saKind (jt : String) : Option JoinKind :=
+  if jt = "LEFT JOIN" ∨ jt = "LEFT OUTER JOIN" then some .left
+  else if jt = "FULL JOIN" ∨ jt = "FULL OUTER JOIN" then some .full
+  else if jt = "JOIN" ∨ jt = "INNER JOIN" ∨ jt = "CROSS JOIN" then some .inner
+  else none
+
+/-- the keyword SQLAlchemy prints -/
+def kindText : JoinKind → String
+  | .inner => "JOIN"
+  | .left => "LEFT OUTER JOIN"
+  | .right => "RIGHT OUTER JOIN"
+  | .full => "FULL OUTER JOIN"
+
+/-- `sa.text('1=1')` -/
+def oneEqOne : Expr := .cmp .eq (.int 1) (.int 1)
+
+/-- left-deep join chains (`prepare_join` rejects a `Join` on the right) over base tables -/
+inductive From where
+  | table (t : Nat)
+  | join (l : From) (jt : String) (implicit : Bool) (t : Nat) (on : Option Expr)
+  deriving Repr
+
+structure Db where
+  width : Nat → Nat
+  rows : Nat → Table
+
+def fromWidth (db : Db) : From → Nat
+  | .table t => db.width t
+  | .join l _ _ t _ => fromWidth db l + db.width t
+
+/-- SQL meaning of a FROM clause; a `join_type` without SQL meaning denotes nothing -/
+def evalFrom (env : Env) (db : Db) : From → Table
+  | .table t => db.rows t
+  | .join l jt imp t on =>
+    if imp then cross (evalFrom env db l) (db.rows t)
+    else match sqlKind jt with
+      | none => []
+      | some k =>
+        match on with
+        | none => if k = .inner then cross (evalFrom env db l) (db.rows t) else
+            evalJoin env k oneEqOne (fromWidth db l) (db.width t) (evalFrom env db l) (db.rows t)
+        | some c => evalJoin env k c (fromWidth db l) (db.width t) (evalFrom env db l) (db.rows t)
+
+/-- the FROM clause of the rendered text (when no join raises) -/
+def saFrom : From → From
+  | .table t => .table t
+  | .join l jt imp t on =>
+    if imp then .join (saFrom l) jt true t none
+    else match saKind jt with
+      | none => .join (saFrom l) jt false t on      -- not reached: the renderer raises
+      | some k => .join (saFrom l) (kindText k) false t
+          (some (match on with | none => oneEqOne | some c => saNormE c))
+
+/-- some explicit join has a `join_type` for which the renderer raises `NotImplementedError` -/
+def raisesFrom : From → Bool
+  | .table _ => false
+  | .join l jt imp _ _ => raisesFrom l || (!imp && (saKind jt).isNone)
+
+/-- the ON conditions are in the modelled fragment -/
+def okFrom : From → Bool
+  | .table _ => true
+  | .join l _ imp _ on =>
+    okFrom l && (imp || match on with | none => true | some c => okE c)
+
+/-! ### ORDER BY -/
+
+structure OrderKey where
+  e : Expr
+  /-- `OrderBy.direction.upper()` -/
+  dir : String
+  /-- `OrderBy.nulls.upper()` -/
+  nulls : String
+  deriving Repr
+
+def keyDesc (k : OrderKey) : Bool := k.dir = "DESC"
+
+def keyNullsFirst (env : Env) (k : OrderKey) : Bool :=
+  if k.nulls = "NULLS FIRST" then true else if k.nulls = "NULLS LAST" then false
+  else (if keyDesc k then !env.nullsLow else env.nullsLow)
+
+/-- `prepare_select`: `.desc()` / `.asc()` / nothing, `nullsfirst` / `nullslast` / nothing -/
+def saKey (k : OrderKey) : OrderKey :=
+  { e := saNormE k.e
+    dir := if k.dir = "DESC" then "DESC" else if k.dir = "ASC" then "ASC" else ""
+    nulls := if k.nulls = "NULLS FIRST" then "NULLS FIRST"
+             else if k.nulls = "NULLS LAST" then "NULLS LAST" else "" }
+
+/-- `to_expression(WindowFunction)`: only `direction == 'DESC'` is looked at, `nulls` is dropped -/
+def saWinKey (k : OrderKey) : OrderKey :=
+  { e := saNormE k.e, dir := if k.dir = "DESC" then "DESC" else "", nulls := "" }
+
+def valLe (desc nullsFirst : Bool) : Val → Val → Bool
+  | none, none => true
+  | none, some _ => nullsFirst
+  | some _, none => !nullsFirst
+  | some x, some y => if desc then decide (y ≤ x) else decide (x ≤ y)
+
+def keyLe (env : Env) (k : OrderKey) (a b : Val) : Bool :=
+  valLe (keyDesc k) (keyNullsFirst env k) a b
+
+/-- lexicographic comparison of two rows under the key list -/
+def rowsLe (env : Env) : List OrderKey → Row → Row → Bool
+  | [], _, _ => true
+  | k :: ks, r1, r2 =>
+    let a := eval env (rowEnv r1) k.e
+    let b := eval env (rowEnv r2) k.e
+    if keyLe env k a b && keyLe env k b a then rowsLe env ks r1 r2 else keyLe env k a b
+
+def insertBy (le : Row → Row → Bool) (x : Row) : Table → Table
+  | [] => [x]
+  | y :: ys => if le x y then x :: y :: ys else y :: insertBy le x ys
+
+/-- stable insertion sort -/
+def sortBy (le : Row → Row → Bool) : Table → Table
+  | [] => []
+  | x :: xs => insertBy le x (sortBy le xs)
+
+/-! ### SELECT and set operations -/
+
+structure Target where
+  e : Expr
+  alias : Option String
+  deriving Repr
+
+/-- `to_expression`: a `Constant` without alias is labelled with `str(value)`; explicit aliases are kept -/
+def saTarget (t : Target) : Target :=
+  { e := saNormE t.e
+    alias := match t.e, t.alias with
+      | .int n, none => some (toString n)
+      | .null, none => some "NULL"
+      | _, a => a }
+
+structure Select where
+  distinct : Bool
+  targets : List Target
+  from_ : From
+  where_ : Option Expr
+  order : List OrderKey
+  limit : Option Nat
+  offset : Option Nat
+  deriving Repr
+
+inductive SetOp where
+  | union | intersect | except
+  deriving DecidableEq, Repr
+
+inductive Query where
+  | select (s : Select)
+  | setop (op : SetOp) (unique : Bool) (l r : Query)
+  deriving Repr
+
+def dedup : Table → Table
+  | [] => []
+  | x :: xs => x :: (dedup xs).filter (· != x)
+
+def bagInter : Table → Table → Table
+  | [], _ => []
+  | x :: xs, r => if r.contains x then x :: bagInter xs (r.erase x) else bagInter xs r
+
+def bagDiff : Table → Table → Table
+  | [], _ => []
+  | x :: xs, r => if r.contains x then bagDiff xs (r.erase x) else x :: bagDiff xs r
+
+def whereRows (env : Env) : Option Expr → Table → Table
+  | none, rows => rows
+  | some c, rows => rows.filter (holds env c)
+
+def evalSelect (env : Env) (db : Db) (s : Select) : Table :=
+  let rows := evalFrom env db s.from_
+  let rows := whereRows env s.where_ rows
+  let rows := sortBy (rowsLe env s.order) rows
+  let out := rows.map fun r => s.targets.map fun t => eval env (rowEnv r) t.e
+  let out := if s.distinct then dedup out else out
+  let out := match s.offset with | none => out | some n => out.drop n
+  match s.limit with | none => out | some n => out.take n
+
+def evalQuery (env : Env) (db : Db) : Query → Table
+  | .select s => evalSelect env db s
+  | .setop op u l r =>
+    let a := evalQuery env db l
+    let b := evalQuery env db r
+    match op, u with
+    | .union, true => dedup (a ++ b)
+    | .union, false => a ++ b
+    | .intersect, true => dedup (a.filter b.contains)
+    | .intersect, false => bagInter a b
+    | .except, true => dedup (a.filter fun x => !b.contains x)
+    | .except, false => bagDiff a b
+
+/-- the SELECT the rendered text denotes (`prepare_select`) -/
+def saSelect (s : Select) : Select :=
+  { distinct := s.distinct
+    targets := s.targets.map saTarget
+    from_ := saFrom s.from_
+    where_ := s.where_.map saNormE
+    order := s.order.map saKey
+    limit := s.limit
+    offset := s.offset }
+
+/-- `prepare_union`: `sa.union` / `union_all` / `intersect` / … chosen from the class and `unique` -/
+def saNorm : Query → Query
+  | .select s => .select (saSelect s)
+  | .setop op u l r => .setop op u (saNorm l) (saNorm r)
+
+def raisesQ : Query → Bool
+  | .select s => raisesFrom s.from_
+  | .setop _ _ l r => raisesQ l || raisesQ r
+
+/-- `get_string(ast)` with the default `with_failback=True`: when the renderer raises
+`NotImplementedError` the statement is printed by the AST printer, i.e. it is the original -/
+def saRender (q : Query) : Query := if raisesQ q then q else saNorm q
+
+def okSelect (s : Select) : Bool :=
+  okFrom s.from_ && s.targets.all (fun t => okE t.e) &&
+    (match s.where_ with | none => true | some c => okE c) && s.order.all (fun k => okE k.e)
+
+def okQ : Query → Bool
+  | .select s => okSelect s
+  | .setop _ _ l r => okQ l && okQ r
+
+/-! ### INSERT … VALUES / UPDATE / DELETE -/
+
+inductive Stmt where
+  | insert (t : Nat) (cols : List Nat) (rows : List (List Expr))
+  | update (t : Nat) (sets : List (Nat × Expr)) (where_ : Option Expr)
+  | delete (t : Nat) (where_ : Option Expr)
+  deriving Repr
+
+def setCols (env : Env) (sets : List (Nat × Expr)) (old : Row) : Row :=
+  sets.foldl (fun r (ce : Nat × Expr) => r.set ce.1 (eval env (rowEnv old) ce.2)) old
+
+def mkRow (env : Env) (w : Nat) (cols : List Nat) (vals : List Expr) : Row :=
+  (cols.zip vals).foldl (fun r (ce : Nat × Expr) => r.set ce.1 (eval env (fun _ => none) ce.2)) (nulls w)
+
+/-- new contents of the target table -/
+def exec (env : Env) (db : Db) : Stmt → Table
+  | .insert t cols rows => db.rows t ++ rows.map (mkRow env (db.width t) cols)
+  | .update t sets w =>
+    (db.rows t).map fun r =>
+      if (match w with | none => true | some c => holds env c r) then setCols env sets r else r
+  | .delete t w =>
+    match w with
+    | none => []
+    | some c => (db.rows t).filter fun r => !holds env c r
+
+def saStmt : Stmt → Stmt
+  | .insert t cols rows => .insert t cols (rows.map (·.map saNormE))
+  | .update t sets w => .update t (sets.map fun ce => (ce.1, saNormE ce.2)) (w.map saNormE)
+  | .delete t w => .delete t (w.map saNormE)
+
+def okStmt : Stmt → Bool
+  | .insert _ _ rows => rows.all (·.all okE)
+  | .update _ sets w => sets.all (fun ce => okE ce.2) && (match w with | none => true | some c => okE c)
+  | .delete _ w => match w with | none => true | some c => okE c
 
 end MindsVerif.Render
